@@ -346,6 +346,7 @@ func init() {
 			"(model.CheckRecursionDepth / XRefTable.CheckRecursionDepth with a caller-supplied depth, a *Visit.Enter, a test-and-set on a caller-supplied visited map, the xref entry Valid/BeingValidated/BeingParsed flags, " +
 			"an inline `depth > limit` on a parameter that is handed on, or a function summarised as always passing such a guard before a nil error / non-nil result) no cycle remains, or the remaining cycle only descends the direct nesting of in-memory values " +
 			"(no call edge on it hands on a value obtained from a call that can resolve an indirect reference; triage table class N with the reason the nesting is bounded) or is listed with a structural reason (class D, with the calls the reason rests on required to be present). " +
+			"(R1i) the parameter a depth guard decides on does not travel around a recursion cycle unchanged (some call on every cycle passes depth+c or a fresh value), so the bound can fire. " +
 			"(R2) every loop that follows a chain of references until it ends (a loop-carried value recomputed through a resolving call, exit test on that value) passes a visited/bound guard on every path from the loop head to the next iteration, or is listed as consumer of a scanner; " +
 			"(R2s) the scanner (validate.scanAndFixOutlineItems) leaves its loop towards a plain success return only by the end-of-chain test; (R2p) the unguarded consumer (validateOutlineTreeDepth) is called only after a successful scan. " +
 			"(R3) a document-controlled array indexed by the position in a sibling array has len >= the sibling's established by make(len), a dominating comparison, or on every path to each call site. " +
@@ -354,6 +355,7 @@ func init() {
 		Rules: []string{
 			"C08.R0 shape: base guard functions compare a depth / test a visited set and return an error",
 			"C08.R1 SCC: no unguarded recursion cycle that follows indirect references; residual cycles triaged N (verified deref-free) or D (required calls present)",
+			"C08.R1i flow: the depth a depth guard decides on is not handed around a recursion cycle unchanged",
 			"C08.R2 MPT: reference-chain loops pass a guard per iteration",
 			"C08.R2s shape: scanner loop exits", "C08.R2p MPT: consumer only after scanner",
 			"C08.R3 relation: sibling-indexed document arrays have an established length relation",
@@ -385,6 +387,7 @@ func runC08(c *Ctx) {
 	r := c.R
 	r.MinInst["C08.R0"] = 5
 	r.MinInst["C08.R1"] = 60
+	r.MinInst["C08.R1i"] = 30
 	r.MinInst["C08.R2"] = 8
 	r.MinInst["C08.R2s"] = 1
 	r.MinInst["C08.R2p"] = 2
@@ -392,6 +395,7 @@ func runC08(c *Ctx) {
 	gs := newGuardSet(c.P)
 	runC08R0(c)
 	runC08R1(c, gs)
+	runC08R1i(c, gs)
 	runC08R2(c, gs, "C08.R2", nil)
 	runC08Scanners(c, gs)
 	runC08R3(c)
@@ -429,7 +433,7 @@ func runC08R0(c *Ctx) {
 			continue
 		}
 		kind := c08BaseGuards[ref]
-		cmp, lookup, update, errRet, flagSet := false, false, false, false, false
+		cmp, lookup, update, errRet, flagSet, fieldIncr := false, false, false, false, false, false
 		eachInstr(fn, func(_ *ssa.BasicBlock, _ int, i ssa.Instruction) {
 			switch x := i.(type) {
 			case *ssa.BinOp:
@@ -443,6 +447,13 @@ func runC08R0(c *Ctx) {
 			case *ssa.Store:
 				if _, ok := x.Addr.(*ssa.FieldAddr); ok && isBoolType(x.Val.Type()) {
 					flagSet = true
+				}
+				if _, ok := x.Addr.(*ssa.FieldAddr); ok {
+					if add, ok := x.Val.(*ssa.BinOp); ok && add.Op == token.ADD {
+						if k, ok := constInt(add.Y); ok && k > 0 {
+							fieldIncr = true
+						}
+					}
 				}
 			case *ssa.Call:
 				if _, cref := callRef(x); c08BaseGuards[cref] != "" || c08TestAndSetCalls[cref] != "" {
@@ -462,6 +473,16 @@ func runC08R0(c *Ctx) {
 		switch {
 		case kind == "depth":
 			ok = cmp && errRet
+			// a depth guard without a depth parameter keeps the nesting in a struct field and must increment it itself
+			hasIntParam := false
+			for _, prm := range fn.Params {
+				if isIntType(prm.Type()) {
+					hasIntParam = true
+				}
+			}
+			if !hasIntParam && !fieldIncr {
+				ok = false
+			}
 		case kind == "visited":
 			ok = lookup && update && errRet
 		default: // test-and-set calls
@@ -528,4 +549,116 @@ func runC36(c *Ctx) {
 		return fn != nil && inBookmarkFiles(p, fn)
 	})
 	c08LoopTriage = saved
+}
+
+// ---------------- C08.R1i: the depth handed around a depth-guarded cycle increases ----------------
+//
+// Nodes are (function, int parameter); an intra-component call that passes parameter j unchanged as argument k gives an edge
+// of weight 0, `j + c` (c > 0) an edge of weight 1. A parameter that is the subject of a depth guard and lies on a cycle of
+// weight-0 edges is a depth that never grows: the guard can never fire.
+func runC08R1i(c *Ctx, gs *guardSet) {
+	p, r := c.P, c.R
+	cg := c.CG()
+	type node struct {
+		fn  *ssa.Function
+		idx int
+	}
+	for _, comp := range recursionSCCs(p, cg) {
+		set := map[*ssa.Function]bool{}
+		for _, f := range comp {
+			set[f] = true
+		}
+		same := map[node][]node{}
+		var subjects []node
+		for _, f := range comp {
+			f := f
+			eachInstr(f, func(_ *ssa.BasicBlock, _ int, i ssa.Instruction) {
+				call, ok := i.(*ssa.Call)
+				if !ok {
+					return
+				}
+				if prm := gs.depthArgParam(call); prm != nil {
+					subjects = append(subjects, node{f, paramIndex(f, prm)})
+				}
+				g := staticCallee(call)
+				if g == nil || !set[unwrapSynthetic(g)] {
+					return
+				}
+				g = unwrapSynthetic(g)
+				args := call.Call.Args
+				for k, a := range args {
+					if k >= len(g.Params) || !isIntType(a.Type()) {
+						continue
+					}
+					if prm, ok := a.(*ssa.Parameter); ok {
+						n := node{f, paramIndex(f, prm)}
+						same[n] = append(same[n], node{g, k})
+					}
+				}
+			})
+			// inline depth comparisons
+			for _, prm := range f.Params {
+				if !isIntType(prm.Type()) {
+					continue
+				}
+				for _, rf := range *prm.Referrers() {
+					if b, ok := rf.(*ssa.BinOp); ok && (b.Op == token.GTR || b.Op == token.GEQ) && b.X == ssa.Value(prm) && paramHandedOn(prm, set) {
+						if _, isC := b.Y.(*ssa.Const); isC {
+							subjects = append(subjects, node{f, paramIndex(f, prm)})
+						}
+					}
+				}
+			}
+		}
+		if len(subjects) == 0 {
+			continue
+		}
+		seenSubj := map[node]bool{}
+		for _, s := range subjects {
+			if seenSubj[s] {
+				continue
+			}
+			seenSubj[s] = true
+			// is s on a cycle of weight-0 edges?
+			onCycle := false
+			visited := map[node]bool{}
+			var dfs func(n node) bool
+			dfs = func(n node) bool {
+				for _, m := range same[n] {
+					if m == s {
+						return true
+					}
+					if !visited[m] {
+						visited[m] = true
+						if dfs(m) {
+							return true
+						}
+					}
+				}
+				return false
+			}
+			onCycle = dfs(s)
+			pos := p.Fset.Position(s.fn.Pos()).String()
+			name := "?"
+			if s.idx >= 0 && s.idx < len(s.fn.Params) {
+				name = s.fn.Params[s.idx].Name()
+			}
+			if onCycle {
+				r.Bad("C08.R1i", FuncID(s.fn), "depth parameter "+name, pos, "the depth tested by the guard is handed around a recursion cycle unchanged: it never grows, so the bound can never fire")
+			} else {
+				r.OK("C08.R1i", FuncID(s.fn), "depth parameter "+name, pos, "no recursion cycle hands this depth on unchanged (an increment or a fresh value lies on every cycle)", true)
+			}
+		}
+	}
+}
+
+func init() {
+	extraDebug["c08r1i"] = func(p *Program) {
+		c := &Ctx{P: p, R: NewReport("C08", "debug")}
+		gs := newGuardSet(p)
+		runC08R1i(c, gs)
+		for _, o := range c.R.Obls {
+			fmt.Printf("%s %s\n    %s\n", o.Verdict, o.Key, o.Witness)
+		}
+	}
 }
